@@ -35,6 +35,75 @@ def _sync_scan(spa):
     return f
 
 
+EAGER_LOGS = []
+
+
+class EarlyConnected(Exception):
+    pass
+
+
+class EagerSpa(MockSpa):
+    """a spa whose engine thread is as fast as a schedule allows: GeckoSpa._final_connect (_is_connected := True, then
+    the on_connected callback) runs at the very moment the facade hooks the callback, i.e. possibly INSIDE the facade's
+    constructor; and a client thread polls facade.is_connected every time the running callback reads the spa (what
+    GeckoSpaDescriptor.get_facade()'s wait loop does).  Both are schedules of the real threads."""
+
+    def __init__(self, struct):
+        super().__init__(struct)
+        self._cb = None
+        self._in_cb = False
+        self.is_connected = False
+        self.early = 0          # polls that saw the facade connected before its inventory was complete
+        self.ev = []            # events for SyncFacade_Trace
+
+    @property
+    def on_connected(self):
+        return self._cb
+
+    @on_connected.setter
+    def on_connected(self, cb):
+        self._cb = cb
+        if cb is None:
+            return
+        f = getattr(cb, "__self__", None)
+        self.ev.append({"k": "hook", "declared": all(hasattr(f, a) for a in ("_sensors", "_water_heater", "_keypad", "_ecomode"))})
+        self.is_connected = True
+        self.ev.append({"k": "final"})
+        self._in_cb = True
+        try:
+            cb(self)
+        finally:
+            self._in_cb = False
+        self.ev.append({"k": "cbdone"})
+
+    @property
+    def accessors(self):
+        if self._in_cb and self._cb is not None and getattr(self._cb, "__self__", None) is not None:
+            seen = bool(self._cb.__self__.is_connected)
+            if len(self.ev) < 40:
+                self.ev.append({"k": "poll", "connected": seen})
+            if seen:
+                self.early += 1
+        return self.struct.accessors
+
+
+def _sync_eager(st):
+    from ..w2 import InertThread
+    import threading
+    from geckolib.automation.facade import GeckoFacade
+    spa = EagerSpa(st)
+    real = threading.Thread
+    threading.Thread = InertThread
+    try:
+        f = GeckoFacade(spa)
+    finally:
+        threading.Thread = real
+    built = all(getattr(f, a, None) is not None for a in ("_water_heater", "_water_care", "_keypad", "_reminders"))
+    spa.ev.append({"k": "ctordone", "connected": bool(f.is_connected), "inv": "built" if built else "wiped"})
+    EAGER_LOGS.append({"ev": spa.ev})
+    return f, spa
+
+
 def record(rig, st, label_of_output, known, sensor_defs, which="async", facade=None, keep=None):
     """facade: an existing facade whose outputs are scanned AGAIN (the wiring in `st` has changed since it was
     built); keep: a list that receives the facade object"""
@@ -47,6 +116,13 @@ def record(rig, st, label_of_output, known, sensor_defs, which="async", facade=N
             f.scan_outputs()
     elif which == "async":
         f = rig.facade(spa)
+    elif which == "sync-eager":
+        f, espa = _sync_eager(st)
+        if espa.early:
+            raise EarlyConnected(espa.early)
+        if not f.is_connected:
+            raise env.MachineryError("C12: the eager-schedule facade never became connected")
+        which = "sync"
     else:
         f = _sync_scan(spa)
     if keep is not None:
@@ -114,6 +190,19 @@ def run(ctx):
     rng = env.rng("c12")
     r = tlc.model_check("Facade_MC", "Facade_MC.cfg", workers=1, timeout=600, coverage=False)
     ctx.tlc_design("Facade inventory function over all wirings of 3 outputs onto 8 labels", r)
+    rs = tlc.model_check("SyncFacade", "SyncFacade_mc.cfg", workers=1, timeout=300, tag="SyncFacade", coverage=False)
+    ctx.tlc_design("SyncFacade: the blocking facade's constructor against the engine thread's final connect and a polling client", rs)
+    for cfgname, what in (("SyncFacade_ctl1.cfg", "callback hooked before the members are declared"),
+                          ("SyncFacade_ctl2.cfg", "is_connected without the facade's own ready flag")):
+        rc_ = tlc.model_check("SyncFacade", cfgname, workers=1, timeout=300, tag=cfgname[:-4], coverage=False)
+        ev.add_tlc(f"negative control: {what} (must be refuted)", rc_)
+        if "ConnectedMeansBuilt" not in rc_.violated:
+            raise env.MachineryError(f"negative control {cfgname} not refuted")
+    rw_ = tlc.model_check("SyncFacade", "SyncFacade_wit.cfg", workers=1, timeout=300, tag="SyncFacade-wit", coverage=False)
+    ev.add_tlc("witness: a connection completed before the callback is hooked is never reported to the facade (reached on purpose)", rw_)
+    if "CallbackNeverSkipped" not in rw_.violated:
+        raise env.MachineryError("SyncFacade witness not reached")
+    del EAGER_LOGS[:]
     from geckolib.const import GeckoConstants as C
     # the device classes the property speaks of (pumps P1..P5 and Waterfall, the blower, the lights), as of the
     # audited commit; keys the library's table has gained since are taken from the live table, keys it has LOST or
@@ -245,7 +334,7 @@ def run(ctx):
                 if wi == 2 and empty_failed is not None and pair_ok:
                     # the pair can be built with an accessory wired, but not with nothing wired
                     broken.append((f"{c['name']}+{l['name']}", {}, empty_failed[0], empty_failed[1]))
-                for which in ("async", "sync"):
+                for which in ("async", "sync") + (("sync-eager",) if wi % 5 == 3 else ()):
                     try:
                         kept = []
                         with contextlib.redirect_stdout(io.StringIO()):
@@ -263,6 +352,8 @@ def run(ctx):
                                 meta.append((f"{c['name']}+{l['name']}", {"rescan": {k: st.accessors[k].value for k in w2}}))
                             finally:
                                 st.set_status_block(saved)
+                    except env.MachineryError:
+                        raise
                     except Exception as e:  # noqa
                         if wi == 0:
                             empty_failed = (which, type(e).__name__)
@@ -278,7 +369,22 @@ def run(ctx):
     if not recs:
         raise env.MachineryError("no facade could be built")
     for (name, w, which, exc) in broken:
-        ctx.violation({"clause": "no-inventory-for-this-wiring", "facade": which, "exc": exc}, {"where": name, "wiring": w})
+        ctx.violation({"clause": "reports-connected-before-inventory-complete" if exc == "EarlyConnected" else
+                       "no-inventory-for-this-wiring", "facade": which, "exc": exc}, {"where": name, "wiring": w})
+    if not EAGER_LOGS:
+        raise env.MachineryError("C12: no facade was built under the eager schedules")
+    everd, _ = tlc.validate("SyncFacade_Trace", EAGER_LOGS, "c12-syncfacade",
+                            "SPECIFICATION TSpec\nCONSTANTS HookLast = TRUE\n          GuardReady = TRUE\n"
+                            "CONSTRAINT Track\nPOSTCONDITION Report\nCHECK_DEADLOCK FALSE\n", chunk=400, jobs=4)
+    n_rej = 0
+    for lg, v in zip(EAGER_LOGS, everd):
+        if not v["accepted"]:
+            n_rej += 1
+            if n_rej <= 20:
+                at = lg["ev"][v["matched"]] if v["matched"] < len(lg["ev"]) else None
+                ctx.violation({"clause": "construction-is-not-a-run-of-SyncFacade", "event": at and at["k"], "why": sorted(v.get("why") or [])[:2]},
+                              {"events": lg["ev"][:12], "matched": v["matched"]})
+    ev.cov["eager_constructions_validated"] = len(EAGER_LOGS) - n_rej
     bad, n = tlc.judge("C12_Judge", recs, "c12", chunk=1500, jobs=12)
     for idx, why in bad:
         name, w = meta[idx]
